@@ -229,6 +229,43 @@ func shapePass(repo, propsFile, dictDir string) (map[string]string, map[string]s
 				})
 			}
 		}
+		// state behind a closure: assignments, inside a function literal, to (something rooted at) a variable
+		// declared outside that literal but inside the enclosing function. A returned closure that writes such a
+		// variable keeps state between - and shares it among concurrent - calls.
+		if body != nil {
+			var lits []*ast.FuncLit
+			ast.Inspect(body, func(x ast.Node) bool {
+				if fl, ok := x.(*ast.FuncLit); ok {
+					lits = append(lits, fl)
+				}
+				return true
+			})
+			for _, fl := range lits {
+				capNote := func(e ast.Expr) {
+					o := rootObj(e)
+					v, ok := o.(*types.Var)
+					if !ok || v.IsField() || v.Pkg() == nil || v.Parent() == v.Pkg().Scope() {
+						return
+					}
+					if v.Pos() < fl.Pos() || v.Pos() > fl.End() {
+						n.pw["cap:"+v.Name()] = true
+					}
+				}
+				ast.Inspect(fl.Body, func(x ast.Node) bool {
+					switch v := x.(type) {
+					case *ast.AssignStmt:
+						if v.Tok != token.DEFINE {
+							for _, l := range v.Lhs {
+								capNote(l)
+							}
+						}
+					case *ast.IncDecStmt:
+						capNote(v.X)
+					}
+					return true
+				})
+			}
+		}
 		pnote := func(e ast.Expr, how string) {
 			if _, plain := e.(*ast.Ident); plain && how == "" {
 				return
